@@ -148,6 +148,7 @@ def stmtErrStr : StmtErr → String
   | .statementString => "StatementString"
   | .statementId => "StatementId"
   | .tooManyValues => "TooManyValues"
+  | .values => "Values"
 
 def errStr : Err → String
   | .valuesTooMany => "Values.TooManyValues"
@@ -190,7 +191,9 @@ def bigLen (what : String) (n : Nat) : String :=
   | "auth-response" => if (writeIntLength n).isSome then "accepted" else "err " ++ errStr .authResponse
   | _ => "bad-case"
 
-def finish (r : Req) (comp : Option Compression) (tr : Bool) (stream : Option Int16) (impl : String) : String :=
+/-- `frame k`: the model's frame given the codec; `body`: the model's uncompressed body. -/
+def finishWith (frame : Codec → Except Err Bytes) (body : Except Err Bytes) (comp : Option Compression)
+    (stream : Option Int16) (impl : String) : String :=
   let iw := implWords impl
   -- the compressed block the implementation produced (checker-mode codec parameter)
   let block : Bytes :=
@@ -200,7 +203,7 @@ def finish (r : Req) (comp : Option Compression) (tr : Bool) (stream : Option In
       | some f => if c == .lz4 then f.drop 13 else f.drop 9
       | none => []
     | _, _ => []
-  match encodeReq (codecFrom block) r comp tr with
+  match frame (codecFrom block) with
   | .error e => "err " ++ errStr e
   | .ok f =>
     let f := match stream with
@@ -209,9 +212,39 @@ def finish (r : Req) (comp : Option Compression) (tr : Bool) (stream : Option In
     match comp with
     | none => "ok " ++ toHex f
     | some _ =>
-      match encodeBody r with
+      match body with
       | .ok body => "ok " ++ toHex f ++ " " ++ toHex body
       | .error e => "err " ++ errStr e
+
+def finish (r : Req) (comp : Option Compression) (tr : Bool) (stream : Option Int16) (impl : String) : String :=
+  finishWith (fun k => encodeReq k r comp tr) (encodeBody r) comp stream impl
+
+/-- `q:<text>[#cols]` / `p:<id>[#cols]`: a statement and the number of columns of its serialization context. -/
+def stmtCtxTok (s : String) : Option (BatchStmt × Nat) :=
+  match s.splitOn "#" with
+  | [x] => (stmtTok x).map (fun st => (st, 0))
+  | [x, n] =>
+    match stmtTok x, n.toNat? with
+    | some st, some n => some (st, n)
+    | _, _ => none
+  | _ => none
+
+/-- `abatch <comp> <tr> <stream> <carrier> <type> <cons> <serial> <ts> <stmt>[#cols][^k] … / <values>[^k] …`:
+a BATCH whose values go through `RawBatchValuesAdapter` (the carrier — vec / iter / tuple — does not matter to the model). -/
+def runAdapter (comp : Option Compression) (tr : Bool) (stream : Option Int16) (fields : List String)
+    (impl : String) : String :=
+  match fields with
+  | carrier :: ty :: c :: sc :: ts :: rest =>
+    let (ss, vs) := splitAtSlash rest
+    match batchTypeTok ty, consistencyTok c, serialTok sc, i64Tok ts,
+          ss.mapM (repeated "^" stmtCtxTok), vs.mapM (repeated "^" valuesTok) with
+    | some ty, some c, some sc, some ts, some ss, some vs =>
+      if carrier == "vec" || carrier == "iter" || carrier == "tuple" then
+        let body := encodeBatchA ty ss.flatten vs.flatten c sc ts
+        finishWith (fun k => encodeFrameOf k body Generated.requestOpcode_Batch comp tr) body comp stream impl
+      else "bad-case"
+    | _, _, _, _, _, _ => "bad-case"
+  | _ => "bad-case"
 
 def run (case impl : String) : String :=
   match words case with
@@ -219,6 +252,10 @@ def run (case impl : String) : String :=
     match n.toNat? with
     | some n => bigLen what n
     | none => "bad-case"
+  | "abatch" :: comp :: tr :: stream :: fields =>
+    match compTok comp, boolTok tr, streamTok stream with
+    | some comp, some tr, some stream => runAdapter comp tr stream fields impl
+    | _, _, _ => "bad-case"
   | kind :: comp :: tr :: stream :: fields =>
     match compTok comp, boolTok tr, streamTok stream, reqOf kind fields with
     | some comp, some tr, some stream, some r =>
